@@ -37,6 +37,7 @@ Seq3 == <<201, 202, 203>>
 Msgs1 == <<"UA">>
 Seq4 == <<201, 202, 203, 204>>
 Seq10 == <<201, 5002, 203, 64000, 205, 206, 1207, 208, 209, 210>>
+Counts1 == <<301>>
 Counts2 == <<301, 302>>
 Counts3 == <<301, 302, 303>>
 Counts4 == <<301, 20302, 303, 304>>
